@@ -223,3 +223,91 @@ def run_emit(method, subsets, clause):
     for l in lines:
         print('    ' + l)
     _finish(bad, '_BlockBuilder.' + method)
+
+
+# ---- compile(): loop generation ------------------------------------------------------------------------------------------------
+
+def _compiled_script(funcs, nprocs, stats=None):
+    """the text evaluable.compile generates for `funcs` under maxprocs(nprocs) (printed by debug_flags.compile), and the values"""
+    import io, contextlib
+    from nutils import evaluable, parallel, debug_flags
+    old = debug_flags.compile
+    debug_flags.compile = True
+    buf = io.StringIO()
+    try:
+        with parallel.maxprocs(nprocs):
+            with contextlib.redirect_stdout(buf):
+                c = evaluable.compile(funcs, stats=stats)
+            with contextlib.redirect_stdout(io.StringIO()), contextlib.redirect_stderr(io.StringIO()):
+                vals = c({}) if not isinstance(c, tuple) else None
+    finally:
+        debug_flags.compile = old
+    return buf.getvalue(), vals
+
+
+def loops_of_script(script):
+    """[(context kind, number of enclosing for-loops)] for every for-loop of the generated function; problems found on the way"""
+    import ast
+    tree = ast.parse(script)
+    out, bad = [], []
+
+    def kind(w):
+        t = ast.unparse(w.items[0].context_expr)
+        return 'ctxrange' if t.startswith('parallel.ctxrange(') else 'plain' if t.startswith('treelog.iter.percentage(') and 'range(' in t else 'other'
+
+    def visit(stmts, depth, parent_with):
+        for st in stmts:
+            if isinstance(st, ast.With):
+                k = kind(st)
+                if k == 'ctxrange' and depth > 0:
+                    bad.append('line %d: parallel.ctxrange inside %d enclosing loop(s): a nested fork' % (st.lineno, depth))
+                visit(st.body, depth, st if k != 'other' else None)
+            elif isinstance(st, ast.For):
+                if parent_with is None:
+                    bad.append('line %d: for-loop without a range context' % st.lineno)
+                else:
+                    out.append((kind(parent_with), depth))
+                visit(st.body, depth + 1, None)
+            elif isinstance(st, (ast.If, ast.FunctionDef)):
+                visit(st.body, depth, None)
+                visit(getattr(st, 'orelse', []), depth, None)
+    visit(tree.body, 0, None)
+    return out, bad
+
+
+def run_loops(clause):
+    import numpy
+    from nutils import evaluable
+    print('clause:', clause)
+    i = evaluable.loop_index('i', evaluable.constant(3))
+    j = evaluable.loop_index('j', evaluable.constant(4))
+    k = evaluable.loop_index('k', evaluable.constant(2))
+    l = evaluable.loop_index('l', evaluable.constant(2))
+    inner = evaluable.loop_sum(evaluable.loop_sum(i * j + l, l) + 1, j)
+    f = evaluable.loop_sum(inner * 2, i)
+    g = evaluable.loop_sum(k * f, k)
+    bad = []
+    results = {}
+    for nprocs, stats in ((1, None), (3, None), (3, 'log')):
+        try:
+            script, vals = _compiled_script((f, g), nprocs, stats)
+        except Exception as e:
+            bad.append('maxprocs %d, stats %r: generating or running the compiled function failed: %r' % (nprocs, stats, e))
+            continue
+        loops, problems = loops_of_script(script)
+        bad += ['maxprocs %d, stats %r: %s' % (nprocs, stats, p) for p in problems]
+        want = 'ctxrange' if nprocs > 1 and not stats else 'plain'
+        print('maxprocs %d stats %r: loops (context, depth): %r' % (nprocs, stats, loops))
+        if len(loops) < 4:
+            bad.append('maxprocs %d, stats %r: expected four generated loops, found %d' % (nprocs, stats, len(loops)))
+        for kind, depth in loops:
+            if depth == 0 and kind != want:
+                bad.append('maxprocs %d, stats %r: outermost loop uses %s, expected %s' % (nprocs, stats, kind, want))
+            if depth > 0 and kind != 'plain':
+                bad.append('maxprocs %d, stats %r: nested loop at depth %d uses %s' % (nprocs, stats, depth, kind))
+        results[nprocs, stats] = [numpy.asarray(v).tolist() for v in vals]
+    if results and (len(set(map(repr, results.values()))) != 1 or list(results.values())[0] != [120, 120]):
+        bad.append('parallel and serial evaluation differ: %r' % (results,))
+    elif results:
+        print('values (all configurations agree):', list(results.values())[0])
+    _finish(bad, 'evaluable.compile loop generation')
